@@ -68,6 +68,15 @@ class Ctx:
     def missing(self, rid, symbol):
         raise NoVerdict('anchor-missing: %s %s' % (rid, symbol))
 
+    def attempt(self, fn, *args, **kw):
+        """run one rule function; a missing anchor inside it is recorded (the run ends NO-VERDICT unless some rule
+        established a violation) instead of stopping the other rules of the property"""
+        try:
+            return fn(*args, **kw)
+        except NoVerdict as e:
+            self.pending.append(str(e))
+            return None
+
     def undecided(self, rid, what):
         """A construct the rule's model does not cover: the other rules still run; the run ends NO-VERDICT (exit 2)
         unless some rule established a violation."""
